@@ -10,6 +10,7 @@ from .._utils.time cimport current_time_millis
 
 cdef cython.float _DNS_PTR_MIN_TTL
 cdef cython.uint _TYPE_PTR
+cdef cython.uint _CLASS_IN
 cdef object _ADDRESS_RECORD_TYPES
 cdef object RecordUpdate
 cdef bint TYPE_CHECKING
